@@ -85,6 +85,10 @@ def run(M, rep, tier, only=None):
                                              "SetDimension", "SampledDimension", "DimensionLink", "DataArray", "LinkContainer",
                                              "SourceLinkContainer"})
 
+    R7 = rep.rule("C05.R7", "a dimension link selects exactly the configured vector of the linked array", floor=1,
+                  technique="per-entry table of the index transformation")
+    link_values_table(M, rep, R7, nctx)
+
     # ------------------------------------------------------------------ R1a
     for cn, name, tb in (("LinkContainer", "append", "methods"), ("SourceLinkContainer", "append", "methods"),
                          ("Feature", "data", "setters")):
@@ -389,6 +393,37 @@ def run(M, rep, tier, only=None):
                     break
         rep.check(R5, key, bad is None and nl > 0 and nu > 0, bad[1] if bad else "required mechanism not found",
                   site=s.file + ":%d" % s.node.lineno, detail=describe_path(bad[0]) if bad else None)
+    # position->index functions must see what the accessors report (linked values when linked)
+    for cn, name, key, accessor in (("SetDimension", "index_of", "labels", "SetDimension.labels"),
+                                    ("SetDimension", "range_indices", "labels", "SetDimension.labels"),
+                                    ("RangeDimension", "index_of", "ticks", "RangeDimension.ticks"),
+                                    ("RangeDimension", "range_indices", "ticks", "RangeDimension.ticks"),
+                                    ("RangeDimension", "tick_at", "ticks", "RangeDimension.ticks"),
+                                    ("RangeDimension", "axis", "ticks", "RangeDimension.ticks")):
+        f = nctx.member(cn, name)
+        ident = "%s.%s/%s" % (cn, name, key)
+        if f is None:
+            continue
+        bad = None
+        nread = 0
+        try:
+            paths = nctx.paths(f, cn, max_paths=20000)
+        except Exception as e:
+            if type(e).__name__ != "Budget":
+                raise
+            continue
+        for p in paths:
+            for e in p.events:
+                if e.kind == "layer" and e.op.split(".")[-1] in ("get_data", "has_data", "get_dataset") and e.key is not None and \
+                        e.key.t == ("const", key) and e.recv is not None and e.recv.t == OWN:
+                    nread += 1
+                    if not any(q.split(":")[-1] == accessor for q in e.stack):
+                        bad = (p, e)
+        if nread:
+            rep.check(R5, ident, bad is None, "%s.%s reads the stored %s of the dimension directly instead of through the %s accessor: a linked "
+                      "dimension is then converted with stale/absent values while its accessor reports the linked ones" % (cn, name, key, key),
+                      site=bad[1].site if bad else None, detail=describe_path(bad[0]) if bad else None, what="%d reads, all through the accessor" % nread)
+
     s = nctx.member("SetDimension", "labels", "setters")
     if s is None:
         rep.bad(R5, "SetDimension.labels@set", "required mechanism not found")
@@ -404,6 +439,56 @@ def run(M, rep, tier, only=None):
                 nref += 1
         rep.check(R5, "SetDimension.labels@set", bad is None and nref > 0, bad[1] if bad else "no refusal for linked dimensions",
                   site=s.file + ":%d" % s.node.lineno, detail=describe_path(bad[0]) if bad else None)
+
+
+def link_values_table(M, rep, rid, nctx):
+    """DimensionLink.values (array branch): exactly the -1 entry of the index becomes the running axis, every other entry is kept"""
+    import ast
+    f = nctx.member("DimensionLink", "values", "getters")
+    if f is None:
+        rep.bad(rid, "DimensionLink.values", "required mechanism not found")
+        return
+    from nixsa.dtable import TermEval, NOTHING, Unknown
+    # form (a): one replacement at the position of -1
+    repl = [n for n in ast.walk(f.node) if isinstance(n, ast.Assign) and isinstance(n.targets[0], ast.Subscript) and
+            isinstance(n.targets[0].slice, ast.Call) and isinstance(n.targets[0].slice.func, ast.Attribute) and
+            n.targets[0].slice.func.attr == "index"]
+    if repl:
+        n = repl[0]
+        arg = n.targets[0].slice.args[0] if n.targets[0].slice.args else None
+        try:
+            argv = ast.literal_eval(arg)
+        except Exception:
+            argv = None
+        okv = ast.unparse(n.value).replace(" ", "") in ("slice(None)", "slice(None,None)", "slice(None,None,None)")
+        rep.check(rid, "DimensionLink.values", argv == -1 and okv, "the linked vector is selected by replacing the entry at index(%r) with %s; "
+                  "required: the entry equal to -1 becomes the full axis" % (argv, ast.unparse(n.value)), site=f.file + ":%d" % n.lineno,
+                  what="entry == -1 -> slice(None), all others kept")
+        return
+    # form (b): per-element expression
+    bad = None
+    seen = {}
+    for p in nctx.paths(f, "DimensionLink"):
+        if not p.normal:
+            continue
+        for x in subterms(p.terminal[1].t):
+            if x and x[0] == "comp" and any(y and y[0] == "rd" and y[3] == ("const", "index") for y in subterms(x)):
+                elt = x[2]
+                el = [y for y in subterms(x) if y and y[0] == "elem"]
+                dec = [(a, v) for a, v in p.decisions if any(y in el for y in subterms(a))]
+                for val in (-1, 0, 1, 5):
+                    te = TermEval(lambda t, val=val: val if (t and t[0] == "elem") else NOTHING)
+                    try:
+                        if all(te.atom(a) == v for a, v in dec):
+                            got = te.ev(elt)
+                            seen[val] = got
+                            want = slice(None) if val == -1 else val
+                            if got != want:
+                                bad = (p, "an index entry %r is turned into %r; only the entry -1 may become the running axis" % (val, got))
+                    except (Unknown, TypeError):
+                        pass
+    rep.check(rid, "DimensionLink.values", bad is None and len(seen) >= 3, bad[1] if bad else "cannot see how the linked vector is selected",
+              site=f.file + ":%d" % f.node.lineno, detail=describe_path(bad[0]) if bad else None, what=str(seen))
 
 
 def container_identity(M, rep, rid, ctx, nctx):
